@@ -399,3 +399,455 @@ Qed.
 
 Lemma Forall2_map_r {A B C} (P : A -> C -> Prop) (f : B -> C) l m : Forall2 P l (map f m) -> Forall2 (fun a b => P a (f b)) l m.
 Proof. revert l. induction m as [|b m IH]; intros l F; simpl in F; inversion F; subst; constructor; auto. Qed.
+
+(* ------------------------------------------------------------------ merge + deletions + loop against the reference join *)
+(* The frames actually merged, L and R, are the two inputs possibly carrying one more key column each (the constant scratch key of an
+   empty `on`, or the null-key marker); their rows are given per ITEM (an input row with its position), because the marker
+   depends on the position. *)
+Section Core.
+  Context {IA IB : Type}.
+  Variables (l r : table) (la : list IA) (lb : list IB) (rowA : IA -> list val) (rowB : IB -> list val).
+  Hypothesis Hla : rows l = map rowA la.
+  Hypothesis Hlb : rows r = map rowB lb.
+  Variables (on_a on_b : list string) (how : merge_how) (sfx : string).
+  Let cl := cols l.
+  Let cr := cols r.
+  Let common := set_inter cl cr.
+  Let names := set_union cl cr.
+  Let semout := cl ++ filter (fun c => negb (mem c cl)) cr.
+  Hypothesis Hsfx : forall c, In c common -> ~ In (sapp c sfx) names.
+  Hypothesis Ha : forall c, In c on_a -> In c cl.
+  Hypothesis Hb : forall c, In c on_b -> In c cr.
+
+  Variables (L R : table) (lon ron dels : list string) (extL : IA -> list val) (extR : IB -> list val).
+  Hypothesis HcL : cols L = cl ++ dels.
+  Hypothesis HcR : cols R = cr ++ dels.
+  Hypothesis HrL : rows L = map extL la.
+  Hypothesis HrR : rows R = map extR lb.
+  Hypothesis HgL : forall a c, In a la -> In c cl -> get (cols L) (extL a) c = get cl (rowA a) c.
+  Hypothesis HgR : forall b c, In b lb -> In c cr -> get (cols R) (extR b) c = get cr (rowB b) c.
+  Hypothesis Hdel : forall s, In s dels -> ~ In s names.
+  Hypothesis Hsn : forall c, same_named_key lon ron c = true <-> (In c dels \/ In (c, c) (combine on_a on_b)).
+  Hypothesis Hmt : forall a b, In a la -> In b lb ->
+    keys_eqv (key_of (cols L) lon (extL a)) (key_of (cols R) ron (extR b)) = join_match false cl cr on_a on_b (rowA a) (rowB b).
+
+  Let kept := merge_right_cols lon ron (cols R).
+  Let ren := fun c => if mem c (cols L) then sapp c sfx else c.
+  Let out := merge_cols (cols L) (cols R) lon ron sfx.
+  Let cols0 := filter (fun x => negb (mem x dels)) out.
+  Let PP := merge_pairs how L R lon ron.
+  Let m0 := fun (a : IA) (b : IB) => join_match false cl cr on_a on_b (rowA a) (rowB b).
+  Let SP0 := sem_pairs m0 how la lb.
+  Let ext := pmap extL extR.
+  Let rw := pmap rowA rowB.
+  Let gg := g0 L R lon ron sfx.
+
+  Lemma in_names_l c : In c cl -> In c names.  Proof. intros I. apply In_set_union. left. exact I. Qed.
+  Lemma in_names_r c : In c cr -> In c names.  Proof. intros I. apply In_set_union. right. exact I. Qed.
+
+  Lemma PP_perm : Permutation PP (map ext SP0).
+  Proof.
+    unfold PP. rewrite merge_pairs_gen. eapply perm_trans; [apply gen_pairs_perm|]. rewrite HrL, HrR, sem_pairs_map.
+    unfold ext, SP0. rewrite (sem_pairs_ext_in _ m0); [apply Permutation_refl|]. intros a b Ia Ib. apply Hmt; assumption.
+  Qed.
+
+  Lemma fL_ext p0 c : In p0 SP0 -> In c cl ->
+    fL L R lon ron (ext p0) c = match fst p0 with
+                                | Some a => get cl (rowA a) c
+                                | None => match snd p0 with
+                                          | Some b => if same_named_key lon ron c then get cr (rowB b) c else VNull
+                                          | None => VNull
+                                          end
+                                end.
+  Proof.
+    intros I Ic. destruct (sem_pairs_from _ (fun _ => []) (fun _ => []) _ _ _ _ I) as [Fa [Fb _]]. unfold fL, ext, pmap. destruct p0 as [[a|] [b|]]; cbn [fst snd option_map].
+    - apply HgL; [apply Fa; reflexivity|exact Ic].
+    - apply HgL; [apply Fa; reflexivity|exact Ic].
+    - destruct (same_named_key lon ron c) eqn:Sn; [|reflexivity]. apply HgR; [apply Fb; reflexivity|].
+      apply Hsn in Sn. destruct Sn as [Sd|Sc]; [exfalso; apply (Hdel c Sd), in_names_l, Ic|]. apply Hb. eapply in_combine_r. exact Sc.
+    - reflexivity.
+  Qed.
+  Lemma fR_ext p0 c : In p0 SP0 -> In c cr -> fR R (ext p0) c = match snd p0 with Some b => get cr (rowB b) c | None => VNull end.
+  Proof.
+    intros I Ic. destruct (sem_pairs_from _ (fun _ => []) (fun _ => []) _ _ _ _ I) as [_ [Fb _]]. unfold fR, ext, pmap. destruct p0 as [oa [b|]]; cbn [fst snd option_map]; [|reflexivity].
+    apply HgR; [apply Fb; reflexivity|exact Ic].
+  Qed.
+
+  Lemma NoDup_cl : NoDup out -> NoDup cl.
+  Proof. intros Nout. unfold out, merge_cols in Nout. rewrite HcL in Nout. apply NoDup_app_l, NoDup_app_l in Nout. exact Nout. Qed.
+
+  Lemma not_same_named c : In c names -> ~ In (c, c) (combine on_a on_b) -> same_named_key lon ron c = false.
+  Proof.
+    intros In0 Nc. destruct (same_named_key lon ron c) eqn:Sn; [|reflexivity]. exfalso. apply Hsn in Sn. destruct Sn as [Sd|Sc]; [apply (Hdel c Sd In0)|exact (Nc Sc)].
+  Qed.
+
+  (* a shared column has a suffixed right copy unless it is a key pair with the same name on both sides *)
+  Lemma shared_kept c : In c cl -> In c cr -> same_named_key lon ron c = false -> In c kept /\ ren c = sapp c sfx.
+  Proof.
+    intros Il Ir Sn. split.
+    - unfold kept, merge_right_cols. apply filter_In. split; [rewrite HcR; apply in_app_iff; left; exact Ir|]. rewrite Sn. reflexivity.
+    - unfold ren. replace (mem c (cols L)) with true; [reflexivity|]. symmetry. apply mem_In. rewrite HcL. apply in_app_iff. left. exact Il.
+  Qed.
+  Lemma right_only_kept c : ~ In c cl -> In c cr -> In c kept /\ ren c = c.
+  Proof.
+    intros Nl Ir. assert (~ In c dels) as Nd by (intros I; apply (Hdel c I), in_names_r, Ir). split.
+    - unfold kept, merge_right_cols. apply filter_In. split; [rewrite HcR; apply in_app_iff; left; exact Ir|].
+      apply negb_true_iff. apply not_same_named; [apply in_names_r, Ir|]. intros Sc. apply Nl, Ha. eapply in_combine_l. exact Sc.
+    - unfold ren. replace (mem c (cols L)) with false; [reflexivity|]. symmetry. apply mem_false. rewrite HcL. intros I. apply in_app_iff in I. tauto.
+  Qed.
+
+  (* which shared columns the loop coalesces *)
+  Lemma kb_common c : NoDup out -> In c common -> kb sfx cols0 c = negb (same_named_key lon ron c).
+  Proof.
+    intros Nout Ic. apply In_set_inter in Ic. destruct Ic as [Il Ir]. unfold kb, cols0.
+    destruct (same_named_key lon ron c) eqn:Sn; cbn [negb].
+    - (* folded into one key column by merge: no suffixed copy *)
+      apply mem_false. intros I. apply filter_In in I. destruct I as [Io Nd]. apply negb_true_iff, mem_false in Nd.
+      unfold out, merge_cols in Io. apply in_app_iff in Io. destruct Io as [Io|Io].
+      + rewrite HcL in Io. apply in_app_iff in Io. destruct Io as [Io|Io]; [|contradiction].
+        apply (Hsfx c); [apply In_set_inter; split; assumption|apply in_names_l, Io].
+      + apply in_map_iff in Io. destruct Io as [c0 [E0 Ik]]. unfold merge_right_cols in Ik. apply filter_In in Ik. destruct Ik as [Ir0 Ns0].
+        destruct (mem c0 (cols L)) eqn:M0.
+        * apply sapp_inj_l in E0. subst c0. rewrite Sn in Ns0. discriminate.
+        * subst c0. rewrite HcR in Ir0. apply in_app_iff in Ir0. destruct Ir0 as [Ir0|Id0].
+          -- apply (Hsfx c); [apply In_set_inter; split; assumption|apply in_names_r, Ir0].
+          -- apply negb_true_iff in Ns0. assert (same_named_key lon ron (sapp c sfx) = true) as T by (apply Hsn; left; exact Id0). congruence.
+    - destruct (shared_kept c Il Ir Sn) as [Ik Er]. apply mem_In, filter_In. split.
+      + unfold out, merge_cols. apply in_app_iff. right. fold kept. rewrite <- Er. apply in_map_iff. exists c. split; [reflexivity|exact Ik].
+      + apply negb_true_iff, mem_false. intros Id.
+        assert (In (sapp c sfx) (cols L)) as IL by (rewrite HcL; apply in_app_iff; right; exact Id).
+        rewrite <- Er in IL. revert IL. apply (ren_not_left L R lon ron sfx Nout c Ik).
+  Qed.
+
+  (* ---- the value the loop leaves in column x, against the cell of the reference join *)
+  Lemma final_cell p0 x : NoDup out -> In p0 SP0 -> In x semout ->
+    valD gg sfx cols0 (rev common) (ext p0) x = sem_cell cl cr (rw p0) x.
+  Proof.
+    intros Nout I Ix. unfold valD, coal, gg.
+    assert (mem x (rev common) = mem x common) as ->.
+    { destruct (mem x common) eqn:M; [apply mem_In, in_rev; rewrite rev_involutive; apply mem_In, M|].
+      apply mem_false. intros J. apply in_rev in J. apply mem_false in M. contradiction. }
+    unfold semout in Ix. apply in_app_iff in Ix.
+    destruct (sem_pairs_from _ (fun _ => []) (fun _ => []) _ _ _ _ I) as [Fa [Fb _]].
+    destruct (in_dec string_dec x cl) as [Il|Nl].
+    - (* a left column *)
+      assert (In x (cols L)) as IL by (rewrite HcL; apply in_app_iff; left; exact Il).
+      rewrite !(g0_left L R lon ron sfx _ x IL). rewrite (fL_ext p0 x I Il).
+      destruct (in_dec string_dec x cr) as [Ir|Nr].
+      + assert (In x common) as Ic by (apply In_set_inter; split; assumption).
+        replace (mem x common) with true by (symmetry; apply mem_In, Ic). rewrite (kb_common x Nout Ic). cbn [andb].
+        destruct (same_named_key lon ron x) eqn:Sn; cbn [negb].
+        * (* a key with the same name on both sides *)
+          assert (In (x, x) (combine on_a on_b)) as Ixx.
+          { apply Hsn in Sn. destruct Sn as [Sd|Sc]; [exfalso; apply (Hdel x Sd), in_names_l, Il|exact Sc]. }
+          unfold sem_cell, rw, pmap. apply mem_In in Il as Ml. apply mem_In in Ir as Mr. rewrite Ml, Mr.
+          destruct p0 as [[a|] [b|]]; cbn [fst snd option_map].
+          -- destruct (is_null (get cl (rowA a) x)) eqn:En; [|reflexivity].
+             assert (m0 a b = true) as Mab by (apply (sem_pairs_matched _ (fun _ => []) (fun _ => []) _ _ _ _ _ I)).
+             unfold m0, join_match, keys_match in Mab. apply andb_true_iff in Mab. destruct Mab as [_ Mab].
+             rewrite (key_pair_null cl cr on_a on_b (rowA a) (rowB b) x Ixx Mab En).
+             destruct (get cl (rowA a) x); try discriminate. reflexivity.
+          -- destruct (is_null (get cl (rowA a) x)) eqn:En; [|reflexivity]. destruct (get cl (rowA a) x); try discriminate. reflexivity.
+          -- reflexivity.
+          -- reflexivity.
+        * (* a shared column that is coalesced *)
+          destruct (shared_kept x Il Ir Sn) as [Ik Er]. rewrite <- Er.
+          rewrite (g0_right L R lon ron sfx Nout _ x Ik). rewrite (fR_ext p0 x I Ir).
+          unfold sem_cell, rw, pmap. apply mem_In in Il as Ml. apply mem_In in Ir as Mr. rewrite Ml, Mr.
+          destruct p0 as [[a|] [b|]]; cbn [fst snd option_map]; reflexivity.
+      + (* only on the left *)
+        replace (mem x common) with false by (symmetry; apply mem_false; intros J; apply In_set_inter in J; tauto). cbn [andb].
+        rewrite (not_same_named x (in_names_l x Il)) by (intros Sc; apply Nr, Hb; eapply in_combine_r; exact Sc).
+        unfold sem_cell, rw, pmap. apply mem_In in Il as Ml. rewrite Ml. replace (mem x cr) with false by (symmetry; apply mem_false, Nr).
+        destruct p0 as [[a|] [b|]]; cbn [fst snd option_map]; try reflexivity; destruct (is_null (get cl (rowA a) x)) eqn:En; try reflexivity;
+          destruct (get cl (rowA a) x); try discriminate; reflexivity.
+    - (* only on the right *)
+      destruct Ix as [Ix|Ix]; [contradiction|]. apply filter_In in Ix. destruct Ix as [Ir _].
+      replace (mem x common) with false by (symmetry; apply mem_false; intros J; apply In_set_inter in J; tauto). cbn [andb].
+      destruct (right_only_kept x Nl Ir) as [Ik Er]. rewrite <- Er at 1.
+      rewrite (g0_right L R lon ron sfx Nout _ x Ik). rewrite (fR_ext p0 x I Ir).
+      unfold sem_cell, rw, pmap. replace (mem x cl) with false by (symmetry; apply mem_false, Nl). apply mem_In in Ir as Mr. rewrite Mr.
+      destruct p0 as [[a|] [b|]]; cbn [fst snd option_map]; reflexivity.
+  Qed.
+
+  Lemma fold_del_length cs t t' : fold_left (fun acc c => r0 <- acc ;; pd_del c r0) cs (Some t) = Some t' -> width_ok t ->
+    Forall2 (fun r' r0 => forall x, In x (cols t') -> get (cols t') r' x = get (cols t) r0 x) (rows t') (rows t).
+  Proof.
+    intros H W. destruct (fold_del_rows _ _ _ H W) as [_ [_ [_ F]]]. eapply Forall2_weaken; [|exact F].
+    intros a b Hab x Ix. rewrite (Hab x). apply mem_In in Ix. rewrite Ix. reflexivity.
+  Qed.
+
+  Lemma core_refines x :
+    (res0 <- pd_merge how L R lon ron sfx ;;
+     res1 <- fold_left (fun acc s => r0 <- acc ;; pd_del s r0) dels (Some res0) ;;
+     fold_left (jstep sfx) common (Some res1)) = Some x ->
+    refines x (mktable semout (map (fun p0 => sem_mk cl cr (rw p0)) SP0)) /\ width_ok x.
+  Proof.
+    unfold pd_merge. destruct (_ && _ && _ && _); [|discriminate]. fold out.
+    destruct (nodup_names out) eqn:Nd; cbn [obind]; [|discriminate]. fold PP.
+    assert (NoDup out) as Nout by (apply nodup_names_sound, Nd).
+    set (res0 := mktable out (map (merge_row (cols L) (cols R) lon ron) PP)).
+    assert (width_ok res0) as W0.
+    { unfold width_ok, res0. cbn [cols rows]. apply Forall_forall. intros r0 I. apply in_map_iff in I. destruct I as [p [<- _]].
+      apply (merge_row_length L R lon ron sfx). }
+    destruct (fold_left _ dels (Some res0)) as [res1|] eqn:Ed; cbn [obind]; [|discriminate].
+    destruct (fold_del_rows _ _ _ Ed W0) as [C1 [W1 [L1 _]]]. pose proof (fold_del_length _ _ _ Ed W0) as F1. cbn [cols rows] in C1, F1.
+    fold cols0 in C1. intros Hf.
+    assert (JInv PP gg sfx cols0 res1 []) as J0.
+    { split; [exact W1|]. split; [rewrite C1; unfold dropped; cbn [filter map mem negb]; rewrite filter_true; reflexivity|].
+      unfold res0 in F1. cbn [rows cols] in F1. apply Forall2_map_r in F1. eapply Forall2_weaken; [|exact F1].
+      intros a p Hap x0 Ix0. rewrite (Hap x0 Ix0). unfold valD, coal. cbn [mem andb]. reflexivity. }
+    assert (NoDup common) as Nc by (apply NoDup_filter, (NoDup_cl Nout)).
+    assert (forall c, In c ([] ++ common) -> In c names /\ ~ In (sapp c sfx) names) as Hn.
+    { intros c Ic. cbn [app] in Ic. split; [|apply Hsfx, Ic]. apply In_set_inter in Ic. apply in_names_l. tauto. }
+    pose proof (coalesce_fold PP gg names sfx cols0 common [] res1 x Hn Nc J0 Hf) as [Wx [Cx Fx]]. rewrite app_nil_r in Cx, Fx.
+    split; [|exact Wx].
+    (* columns of the result *)
+    assert (forall c, In c (dropped sfx cols0 (rev common)) <-> exists c0, In c0 common /\ same_named_key lon ron c0 = false /\ c = sapp c0 sfx) as Dr.
+    { intros c. unfold dropped. rewrite in_map_iff. split.
+      - intros [c0 [E0 I0]]. apply filter_In in I0. destruct I0 as [I0 K0]. apply (proj2 (in_rev _ _)) in I0.
+        rewrite (kb_common c0 Nout I0) in K0. apply negb_true_iff in K0. exists c0. split; [exact I0|]. split; [exact K0|symmetry; exact E0].
+      - intros [c0 [I0 [K0 E0]]]. exists c0. split; [symmetry; exact E0|]. apply filter_In. split; [apply (proj1 (in_rev _ _)), I0|].
+        rewrite (kb_common c0 Nout I0), K0. reflexivity. }
+    assert (forall c, In c semout -> In c (cols x)) as Sub.
+    { intros c Ic. assert (In c names) as Icn.
+      { unfold semout in Ic. apply in_app_iff in Ic. destruct Ic as [Ic|Ic]; [apply in_names_l, Ic|apply filter_In in Ic; apply in_names_r; tauto]. }
+      rewrite Cx. apply filter_In. split.
+      - unfold cols0. apply filter_In. split.
+        + unfold semout in Ic. apply in_app_iff in Ic. unfold out, merge_cols. destruct Ic as [Ic|Ic].
+          * apply in_app_iff. left. rewrite HcL. apply in_app_iff. left. exact Ic.
+          * apply filter_In in Ic. destruct Ic as [Ir Nl]. apply negb_true_iff, mem_false in Nl. destruct (right_only_kept c Nl Ir) as [Ik Er].
+            apply in_app_iff. right. fold kept. rewrite <- Er. apply in_map_iff. exists c. split; [reflexivity|exact Ik].
+        + apply negb_true_iff, mem_false. intros Id. apply (Hdel c Id Icn).
+      - apply negb_true_iff, mem_false. intros Id. apply Dr in Id. destruct Id as [c0 [I0 [_ E0]]]. apply (Hsfx c0 I0). rewrite <- E0. exact Icn. }
+    assert (forall c, In c (cols x) -> In c semout) as Sup.
+    { intros c Ic. rewrite Cx in Ic. apply filter_In in Ic. destruct Ic as [Ic Nd0]. unfold cols0 in Ic. apply filter_In in Ic. destruct Ic as [Io Ndel].
+      apply negb_true_iff, mem_false in Ndel. apply negb_true_iff, mem_false in Nd0.
+      unfold out, merge_cols in Io. apply in_app_iff in Io. unfold semout. apply in_app_iff. destruct Io as [Io|Io].
+      - rewrite HcL in Io. apply in_app_iff in Io. destruct Io as [Io|Io]; [left; exact Io|contradiction].
+      - apply in_map_iff in Io. destruct Io as [c0 [E0 Ik]]. unfold merge_right_cols in Ik. apply filter_In in Ik. destruct Ik as [Ir0 Nsn].
+        rewrite HcR in Ir0. apply in_app_iff in Ir0. apply negb_true_iff in Nsn.
+        destruct Ir0 as [Ir0|Id0]; [|exfalso; assert (same_named_key lon ron c0 = true) as T by (apply Hsn; left; exact Id0); congruence].
+        destruct (in_dec string_dec c0 cl) as [Il0|Nl0].
+        + (* a shared column with a suffixed copy: the loop dropped it *)
+          exfalso. apply Nd0. apply Dr. exists c0. split; [apply In_set_inter; split; assumption|]. split; [exact Nsn|].
+          rewrite <- E0. replace (mem c0 (cols L)) with true; [reflexivity|]. symmetry. apply mem_In. rewrite HcL. apply in_app_iff. left. exact Il0.
+        + right. assert (mem c0 (cols L) = false) as Mf.
+          { apply mem_false. rewrite HcL. intros I. apply in_app_iff in I. destruct I as [I|I]; [contradiction|apply (Hdel c0 I), in_names_r, Ir0]. }
+          rewrite Mf in E0. subst c. apply filter_In. split; [exact Ir0|]. apply negb_true_iff, mem_false, Nl0. }
+    (* the rows *)
+    exists (mktable semout (map (fun p => map (fun c => valD gg sfx cols0 (rev common) p c) semout) PP)). split; [|split].
+    - split; cbn [cols rows]; [intros c; split; [apply Sup|apply Sub]|].
+      rewrite <- (map_id (rows x)). revert Fx. generalize (rows x) as rs. generalize PP as pp. intros pp rs Fx.
+      induction Fx as [|a p rs pp Hap Fx IH]; cbn [map]; constructor; [|exact IH].
+      intros c. rewrite (get_map_cols (fun c0 => valD gg sfx cols0 (rev common) p c0)). destruct (mem c semout) eqn:M.
+      + apply Hap. apply Sub. apply mem_In, M.
+      + apply get_absent. intros Ic. apply Sup in Ic. apply mem_In in Ic. congruence.
+    - reflexivity.
+    - cbn [rows]. eapply perm_trans; [apply Permutation_map, PP_perm|]. rewrite map_map.
+      assert (map (fun x0 => map (fun c => valD gg sfx cols0 (rev common) (ext x0) c) semout) SP0 = map (fun p0 => sem_mk cl cr (rw p0)) SP0) as ->; [|apply Permutation_refl].
+      apply map_ext_in. intros p0 I0. unfold sem_mk. apply map_ext_in. intros c Ic. apply (final_cell p0 c Nout I0 Ic).
+  Qed.
+End Core.
+
+(* ------------------------------------------------------------------ _natural_join_step *)
+Lemma same_named_spec lon ron c : same_named_key lon ron c = true <-> In (c, c) (combine lon ron).
+Proof.
+  unfold same_named_key. rewrite existsb_exists. split.
+  - intros [[a b] [I E]]. cbn [fst snd] in E. apply andb_true_iff in E. destruct E as [E1 E2].
+    apply String.eqb_eq in E1. apply String.eqb_eq in E2. subst. exact I.
+  - intros I. exists (c, c). split; [exact I|]. cbn [fst snd]. rewrite String.eqb_refl. reflexivity.
+Qed.
+
+Lemma map_snd_tag (rs : list (list val)) : forall n, map snd (tag_from n rs) = rs.
+Proof. induction rs as [|r rs IH]; intros n; simpl; [reflexivity|]. rewrite IH. reflexivity. Qed.
+
+Lemma combine_marker {X} (G : nat * bool -> X) (f : list val -> bool) (rs : list (list val)) : forall n,
+  combine rs (map G (combine (seq n (List.length rs)) (map f rs))) = map (fun it => (snd it, G (fst it, f (snd it)))) (tag_from n rs).
+Proof. induction rs as [|r rs IH]; intros n; simpl; [reflexivity|]. rewrite IH. reflexivity. Qed.
+
+Lemma keys_eqv_snoc ka kb x y : List.length ka = List.length kb -> keys_eqv (ka ++ [x]) (kb ++ [y]) = keys_eqv ka kb && v_eqv x y.
+Proof.
+  revert kb. induction ka as [|a ka IH]; intros [|b kb] L; simpl in L; try discriminate; simpl.
+  - rewrite andb_true_r. reflexivity.
+  - rewrite IH by lia. rewrite andb_assoc. reflexivity.
+Qed.
+Lemma keys_eqv_null_same ka kb : keys_eqv ka kb = true -> existsb is_null ka = existsb is_null kb.
+Proof.
+  revert kb. induction ka as [|a ka IH]; intros [|b kb] E; simpl in E; try discriminate; [reflexivity|].
+  apply andb_true_iff in E. destruct E as [E1 E2]. simpl. rewrite (IH kb E2). f_equal.
+  destruct a, b; simpl in *; try reflexivity; try discriminate.
+Qed.
+Lemma marker_eqv (nl nr : bool) i j :
+  v_eqv (if nl then vint (Z.of_nat (S i)) else vint 0) (if nr then vint (- Z.of_nat (S j)) else vint 0) = negb nl && negb nr.
+Proof.
+  unfold vint, v_eqv. destruct nl, nr; cbn [num_of negb andb].
+  - apply not_true_iff_false. intros E. apply Qeq_bool_iff in E. unfold Qeq, inject_Z in E. cbn [Qnum Qden] in E. lia.
+  - apply not_true_iff_false. intros E. apply Qeq_bool_iff in E. unfold Qeq, inject_Z in E. cbn [Qnum Qden] in E. lia.
+  - apply not_true_iff_false. intros E. apply Qeq_bool_iff in E. unfold Qeq, inject_Z in E. cbn [Qnum Qden] in E. lia.
+  - reflexivity.
+Qed.
+
+Lemma key_of_snoc cs ks (r : list val) n v : List.length r = List.length cs -> (forall c, In c ks -> In c cs) -> ~ In n cs ->
+  key_of (cs ++ [n]) (ks ++ [n]) (r ++ [v]) = key_of cs ks r ++ [v].
+Proof.
+  intros L S N. unfold key_of. rewrite map_app. f_equal.
+  - apply map_ext_in. intros c Ic. apply get_app_l; [exact L|apply S, Ic].
+  - cbn [map]. rewrite (get_app_r _ _ _ _ _ L N). unfold get. cbn [index_of]. destruct (eq_dec n n); [reflexivity|congruence].
+Qed.
+
+Lemma combine_app {X Y} (l1 l2 : list X) (m1 m2 : list Y) : List.length l1 = List.length m1 -> combine (l1 ++ l2) (m1 ++ m2) = combine l1 m1 ++ combine l2 m2.
+Proof. revert m1. induction l1 as [|x l1 IH]; intros [|y m1] L; simpl in L; try discriminate; simpl; [reflexivity|]. rewrite IH by lia. reflexivity. Qed.
+Lemma existsb_id_true (l : list bool) : existsb (fun b => b) l = true <-> In true l.
+Proof. rewrite existsb_exists. split; [intros [b [I E]]; subst; exact I|intros I; exists true; split; [exact I|reflexivity]]. Qed.
+
+Lemma sem_join_tagged on_a on_b jt l r :
+  sem_join false on_a on_b jt l r
+  = mktable (cols l ++ filter (fun c => negb (mem c (cols l))) (cols r))
+            (map (fun p0 => sem_mk (cols l) (cols r) (pmap (@snd nat (list val)) (@snd nat (list val)) p0))
+                 (sem_pairs (fun a b : nat * list val => join_match false (cols l) (cols r) on_a on_b (snd a) (snd b)) (how_of jt)
+                            (tag_from 0 (rows l)) (tag_from 0 (rows r)))).
+Proof.
+  rewrite sem_join_as_pairs. f_equal. rewrite <- (map_snd_tag (rows l) 0) at 1. rewrite <- (map_snd_tag (rows r) 0) at 1.
+  rewrite sem_pairs_map, map_map. reflexivity.
+Qed.
+
+Theorem px_join_refines declared on_a on_b jt l r x :
+  width_ok l -> width_ok r ->
+  (forall c, In c on_a -> In c (cols l)) -> (forall c, In c on_b -> In c (cols r)) -> List.length on_a = List.length on_b ->
+  same_set declared (cols l ++ filter (fun c => negb (mem c (cols l))) (cols r)) ->
+  px_join declared on_a on_b jt l r = Some x -> refines x (sem_join false on_a on_b jt l r) /\ width_ok x.
+Proof.
+  intros Wl Wr Ha Hb Hlen Sd. unfold px_join.
+  destruct (Nat.eqb (nrows l) 0 && Nat.eqb (nrows r) 0) eqn:E0.
+  - (* both sides empty *)
+    rewrite sem_join_as_pairs.
+    intros H. inversion H; subst x. apply andb_true_iff in E0. destruct E0 as [El Er]. apply Nat.eqb_eq in El, Er. unfold nrows in El, Er.
+    apply length_zero_nil in El. apply length_zero_nil in Er. rewrite El, Er.
+    split; [|unfold width_ok, pd_empty_frame; cbn [rows]; constructor].
+    apply refines_of_eqv. unfold pd_empty_frame. split; cbn [cols rows]; [exact Sd|].
+    destruct jt; cbn; constructor.
+  - rewrite sem_join_tagged.
+    set (common := set_inter (cols l) (cols r)). set (names := set_union (cols l) (cols r)). set (sfx := right_suffix common names).
+    assert (forall c, In c common -> ~ In (sapp c sfx) names) as Hsfx by (intros c Ic; apply right_suffix_fresh, Ic).
+    set (la := tag_from 0 (rows l)). set (lb := tag_from 0 (rows r)).
+    assert (rows l = map snd la) as Hla by (unfold la; rewrite map_snd_tag; reflexivity).
+    assert (rows r = map snd lb) as Hlb by (unfold lb; rewrite map_snd_tag; reflexivity).
+    assert (forall a, In a la -> List.length (snd a) = List.length (cols l)) as Lla.
+    { intros a Ia. unfold width_ok in Wl. rewrite Forall_forall in Wl. apply Wl. unfold la in Ia. apply tag_from_In in Ia. exact Ia. }
+    assert (forall b, In b lb -> List.length (snd b) = List.length (cols r)) as Llb.
+    { intros b Ib. unfold width_ok in Wr. rewrite Forall_forall in Wr. apply Wr. unfold lb in Ib. apply tag_from_In in Ib. exact Ib. }
+    destruct on_a as [|a0 on_a'] eqn:Ea.
+    + (* ---- empty `on`: a constant scratch key in both frames; no key is null, so no marker *)
+      destruct on_b as [|b0 on_b']; [|discriminate]. set (S := unused_column_name base_merge_col names).
+      pose proof (unused_column_name_fresh base_merge_col names) as FS. fold S in FS.
+      assert (~ In S (cols l)) as Sl by (intros I; apply FS, In_set_union; left; exact I).
+      assert (~ In S (cols r)) as Sr by (intros I; apply FS, In_set_union; right; exact I).
+      cbv beta iota zeta.
+      assert (forall t0, ~ In S (cols t0) -> width_ok t0 ->
+                pd_isnull_any [S] (pd_set_scalar S vone t0) = Some (map (fun _ => false) (rows t0))) as Nn.
+      { intros t0 St W0. unfold pd_isnull_any, pd_set_scalar. cbn [cols rows].
+        replace (subset [S] (add_end (cols t0) S)) with true by (symmetry; apply subset_spec; intros c [<-|[]]; apply In_add_end; right; reflexivity).
+        f_equal. rewrite map_map. apply map_ext_in. intros r0 I0. rewrite (add_end_new _ _ St), (set_cell_new _ _ _ _ St). cbn [key_of map existsb].
+        unfold width_ok in W0. rewrite Forall_forall in W0. rewrite (get_app_r _ _ _ _ _ (W0 r0 I0) St).
+        unfold get. cbn [index_of]. destruct (eq_dec S S); [reflexivity|congruence]. }
+      rewrite (Nn l Sl Wl), (Nn r Sr Wr). cbn [obind].
+      assert (forall (rs : list (list val)), existsb (fun b : bool => b) (map (fun _ => false) rs) = false) as Ef
+        by (intros rs; induction rs; simpl; [reflexivity|assumption]).
+      rewrite (Ef (rows l)). cbn [andb obind]. unfold clean_copy, pd_reset_index.
+      intros H.
+      destruct (pd_merge (how_of jt) (pd_set_scalar S vone l) (pd_set_scalar S vone r) [S] [S] sfx) as [res0|] eqn:Em; cbn [obind] in H; [|discriminate].
+      destruct (pd_del S res0) as [res1|] eqn:Ed; cbn [obind] in H; [|discriminate].
+      destruct (fold_left (jstep sfx) common (Some res1)) as [res2|] eqn:Ef2; cbn [obind] in H; [|discriminate]. inversion H; subst x. clear H.
+      apply (core_refines l r la lb (@snd nat (list val)) (@snd nat (list val)) [] [] (how_of jt) sfx Hsfx Ha Hb
+               (pd_set_scalar S vone l) (pd_set_scalar S vone r) [S] [S] [S]
+               (fun a => set_cell (cols l) (snd a) S vone) (fun b => set_cell (cols r) (snd b) S vone)).
+      * unfold pd_set_scalar. cbn [cols]. apply add_end_new, Sl.
+      * unfold pd_set_scalar. cbn [cols]. apply add_end_new, Sr.
+      * unfold pd_set_scalar. cbn [rows]. rewrite Hla, map_map. reflexivity.
+      * unfold pd_set_scalar. cbn [rows]. rewrite Hlb, map_map. reflexivity.
+      * intros a c Ia Ic. unfold pd_set_scalar. cbn [cols]. rewrite (add_end_new _ _ Sl), (set_cell_new _ _ _ _ Sl).
+        apply get_app_l; [apply Lla, Ia|exact Ic].
+      * intros b c Ib Ic. unfold pd_set_scalar. cbn [cols]. rewrite (add_end_new _ _ Sr), (set_cell_new _ _ _ _ Sr).
+        apply get_app_l; [apply Llb, Ib|exact Ic].
+      * intros s [<-|[]]. exact FS.
+      * intros c. rewrite same_named_spec. cbn [combine In]. split; [intros [E|[]]; inversion E; left; left; reflexivity|].
+        intros [[->|[]]|[]]. left. reflexivity.
+      * intros a b Ia Ib. unfold pd_set_scalar. cbn [cols key_of map]. rewrite (add_end_new _ _ Sl), (add_end_new _ _ Sr).
+        rewrite (set_cell_new _ _ _ _ Sl), (set_cell_new _ _ _ _ Sr).
+        rewrite (get_app_r _ _ _ _ _ (Lla a Ia) Sl), (get_app_r _ _ _ _ _ (Llb b Ib) Sr).
+        unfold get. cbn [index_of]. destruct (eq_dec S S); [|congruence]. reflexivity.
+      * rewrite Em. cbn [obind fold_left]. rewrite Ed. cbn [obind]. exact Ef2.
+    + (* ---- keyed join *)
+      cbv beta iota zeta. rewrite <- Ea in *. clear Ea a0 on_a'.
+      set (ka := key_of (cols l) on_a). set (kb' := key_of (cols r) on_b).
+      unfold pd_isnull_any.
+      replace (subset on_a (cols l)) with true by (symmetry; apply subset_spec; exact Ha).
+      replace (subset on_b (cols r)) with true by (symmetry; apply subset_spec; exact Hb). cbn [obind].
+      fold ka kb'.
+      set (nl := map (fun r0 => existsb is_null (ka r0)) (rows l)). set (nr := map (fun r0 => existsb is_null (kb' r0)) (rows r)).
+      assert (forall a b, In a la -> In b lb -> List.length (ka (snd a)) = List.length (kb' (snd b))) as Lk
+        by (intros a b _ _; unfold ka, kb', key_of; rewrite !map_length; exact Hlen).
+      destruct (existsb (fun b : bool => b) nl && existsb (fun b : bool => b) nr) eqn:Eany.
+      * (* both sides have a row with a null key: the marker column joins the keys *)
+        set (N := unused_column_name base_null_key names).
+        pose proof (unused_column_name_fresh base_null_key names) as FN. fold N in FN.
+        assert (~ In N (cols l)) as Nl by (intros I; apply FN, In_set_union; left; exact I).
+        assert (~ In N (cols r)) as Nr by (intros I; apply FN, In_set_union; right; exact I).
+        destruct (pd_set_col N (marker_left nl) l) as [L|] eqn:EL; cbn [obind]; [|discriminate].
+        destruct (pd_set_col N (marker_right nr) r) as [R|] eqn:ER; cbn [obind]; [|discriminate].
+        destruct (pd_set_col_inv _ _ _ _ EL) as [_ [CL RL]]. destruct (pd_set_col_inv _ _ _ _ ER) as [_ [CR RR]].
+        rewrite (add_end_new _ _ Nl) in CL. rewrite (add_end_new _ _ Nr) in CR.
+        set (extL := fun a : nat * list val => set_cell (cols l) (snd a) N (if existsb is_null (ka (snd a)) then vint (Z.of_nat (Datatypes.S (fst a))) else vint 0)).
+        set (extR := fun b : nat * list val => set_cell (cols r) (snd b) N (if existsb is_null (kb' (snd b)) then vint (- Z.of_nat (Datatypes.S (fst b))) else vint 0)).
+        assert (rows L = map extL la) as HrL.
+        { rewrite RL. unfold marker_left, nl. rewrite map_length.
+          rewrite (combine_marker (fun ib : nat * bool => if snd ib then vint (Z.of_nat (Datatypes.S (fst ib))) else vint 0) (fun r0 => existsb is_null (ka r0)) (rows l) 0).
+          rewrite map_map. reflexivity. }
+        assert (rows R = map extR lb) as HrR.
+        { rewrite RR. unfold marker_right, nr. rewrite map_length.
+          rewrite (combine_marker (fun ib : nat * bool => if snd ib then vint (- Z.of_nat (Datatypes.S (fst ib))) else vint 0) (fun r0 => existsb is_null (kb' r0)) (rows r) 0).
+          rewrite map_map. reflexivity. }
+        unfold clean_copy, pd_reset_index. intros H.
+        destruct (pd_merge (how_of jt) L R (on_a ++ [N]) (on_b ++ [N]) sfx) as [res0|] eqn:Em; cbn [obind] in H; [|discriminate].
+        destruct (pd_del N res0) as [res1|] eqn:Ed; cbn [obind] in H; [|discriminate].
+        destruct (fold_left (jstep sfx) common (Some res1)) as [res2|] eqn:Ef2; cbn [obind] in H; [|discriminate]. inversion H; subst x. clear H.
+        apply (core_refines l r la lb (@snd nat (list val)) (@snd nat (list val)) on_a on_b (how_of jt) sfx Hsfx Ha Hb
+                 L R (on_a ++ [N]) (on_b ++ [N]) [N] extL extR CL CR HrL HrR).
+        -- intros a c Ia Ic. rewrite CL. unfold extL. rewrite (set_cell_new _ _ _ _ Nl). apply get_app_l; [apply Lla, Ia|exact Ic].
+        -- intros b c Ib Ic. rewrite CR. unfold extR. rewrite (set_cell_new _ _ _ _ Nr). apply get_app_l; [apply Llb, Ib|exact Ic].
+        -- intros s [<-|[]]. exact FN.
+        -- intros c. rewrite same_named_spec. rewrite combine_app by exact Hlen. cbn [combine]. rewrite in_app_iff. cbn [In].
+           split; [intros [I|[E|[]]]; [right; exact I|inversion E; left; left; reflexivity]|].
+           intros [[->|[]]|I]; [right; left; reflexivity|left; exact I].
+        -- intros a b Ia Ib. rewrite CL, CR. unfold extL, extR. rewrite (set_cell_new _ _ _ _ Nl), (set_cell_new _ _ _ _ Nr).
+           rewrite (key_of_snoc _ _ _ _ _ (Lla a Ia) Ha Nl), (key_of_snoc _ _ _ _ _ (Llb b Ib) Hb Nr). fold ka kb'.
+           rewrite (keys_eqv_snoc _ _ _ _ (Lk a b Ia Ib)), marker_eqv. unfold join_match, keys_match. cbn [orb]. fold ka kb'.
+           destruct (keys_eqv (ka (snd a)) (kb' (snd b))) eqn:Ek; [|rewrite andb_false_r; reflexivity].
+           rewrite <- (keys_eqv_null_same _ _ Ek). destruct (existsb is_null (ka (snd a))); reflexivity.
+        -- rewrite Em. cbn [obind fold_left]. rewrite Ed. cbn [obind]. exact Ef2.
+      * (* at most one side has null keys: pandas' "null matches null" never fires *)
+        cbn [obind]. unfold clean_copy, pd_reset_index. intros H.
+        destruct (pd_merge (how_of jt) l r on_a on_b sfx) as [res0|] eqn:Em; cbn [obind] in H; [|discriminate].
+        destruct (fold_left (jstep sfx) common (Some res0)) as [res2|] eqn:Ef2; cbn [obind] in H; [|discriminate]. inversion H; subst x. clear H.
+        apply (core_refines l r la lb (@snd nat (list val)) (@snd nat (list val)) on_a on_b (how_of jt) sfx Hsfx Ha Hb
+                 l r on_a on_b [] (@snd nat (list val)) (@snd nat (list val))).
+        -- rewrite app_nil_r. reflexivity.
+        -- rewrite app_nil_r. reflexivity.
+        -- exact Hla.
+        -- exact Hlb.
+        -- reflexivity.
+        -- reflexivity.
+        -- intros s [].
+        -- intros c. rewrite same_named_spec. cbn [In]. tauto.
+        -- intros a b Ia Ib. unfold join_match, keys_match. cbn [orb]. fold ka kb'.
+           destruct (keys_eqv (ka (snd a)) (kb' (snd b))) eqn:Ek; [|rewrite andb_false_r; reflexivity].
+           destruct (existsb is_null (ka (snd a))) eqn:En; [|reflexivity]. exfalso.
+           assert (existsb is_null (kb' (snd b)) = true) as En' by (rewrite <- (keys_eqv_null_same _ _ Ek); exact En).
+           assert (existsb (fun b0 : bool => b0) nl = true) as T1.
+           { apply existsb_id_true. unfold nl. apply in_map_iff. exists (snd a). split; [exact En|]. unfold la in Ia. apply tag_from_In in Ia. exact Ia. }
+           assert (existsb (fun b0 : bool => b0) nr = true) as T2.
+           { apply existsb_id_true. unfold nr. apply in_map_iff. exists (snd b). split; [exact En'|]. unfold lb in Ib. apply tag_from_In in Ib. exact Ib. }
+           rewrite T1, T2 in Eany. discriminate.
+        -- rewrite Em. cbn [obind fold_left]. exact Ef2.
+Qed.
